@@ -39,12 +39,12 @@ check("C07", "exploration",
       "DESIGN.md §3 C07")
 check("C08", "model_checking",
       "explicit-state search over all call histories up to depth 4/5 on real Parser / Tokenizer objects, reference configuration model in lock-step, probe-based differential oracle",
-      "All histories over a 14-operation parser alphabet and an 11-operation tokenizer alphabet (parse variants, failures, cancellations, depth-limit input, options, Reset, Release, Put) are executed on a fresh instance; afterwards a probe set whose answers depend on every field of the instance must answer exactly as a new instance with the model's configuration, and after Reset/Put the instance must equal a new one field by field (unexported fields included); pool hand-out histories (9 pool operations incl. releasing a recovery result twice, depth 5/6): no instance is ever owned by two holders and every instance handed out answers like a new one.",
+      "All histories over a 14-operation parser alphabet and an 11-operation tokenizer alphabet (parse variants, failures, cancellations, depth-limit input, options, Reset, Release, Put) are executed on a fresh instance; afterwards a probe set whose answers depend on every field of the instance (including where the context is polled and where a mid-statement cancellation lands) must answer exactly as a new instance with the model's configuration, and after Reset/Put the instance must equal a new one field by field (unexported fields included); pool hand-out histories (9 pool operations incl. releasing a recovery result twice, depth 5/6): no instance is ever owned by two holders and every instance handed out answers like a new one.",
       "Trusted: the two-field configuration model (strict, dialect); 'same pointer after Put' stands for the next pool holder.",
       "DESIGN.md §2.4, §3 C08", engine="engine/common (history enumeration)")
 check("C09", "model_checking",
       "exhaustive (pooled type x field x release path) obligations by reflection + explicit-state search over parse/hold/release histories up to depth 4/5 with snapshot and pointer-disjointness invariants",
-      "Every pooled type and release path found in pool.go at check time: every field filled, released, re-obtained (pointer identity asserted) and compared with a new object incl. backing arrays; all histories over 23 operations (parse / hold / release, error paths of parser and tokenizer, formatters, validators, linter, extractors, scanner, recovery, tokenizer borrow / return) on 6 queries sharing pooled shapes: held trees/tokens/results never change, live trees share no pooled node, no node is put twice or pooled while live.",
+      "Every pooled type and release path found in pool.go at check time: every field filled, released, re-obtained (pointer identity asserted) and compared with a new object incl. backing arrays; all histories over 23 operations (parse / hold / release, error paths of parser and tokenizer, formatters, validators, linter, extractors, scanner, recovery, tokenizer borrow / return) on 6 queries sharing pooled shapes: held trees/tokens/results never change, live trees share no pooled node, no node is put twice or pooled while live; every contiguous sub-slice of a held token list through every token-consuming entry point leaves the whole backing array (spare capacity included) as it was.",
       "Trusted: reflection-based fill; GC disabled inside a history so the pools hand objects back deterministically; the cross-goroutine clause is C10's.",
       "DESIGN.md §2.4, §3 C09", engine="engine/common (history enumeration)")
 check("C10", "exploration",
@@ -54,7 +54,7 @@ check("C10", "exploration",
       "DESIGN.md §2.5, §3 C10", engine="engine/sched + engine/shim + tools/overlaygen")
 check("C11", "fault_enumeration",
       "fault enumeration: a counting context fires at every poll k in [0,P] of every input x entry point, with both error kinds",
-      "For each input (one per poll-site context, every clause option of the model grammar, long token lists; thorough: every expression hole) and each of gosqlx.ParseWithContext, Tokenizer.TokenizeContext, Parser.ParseContext the number of polls P is measured, then the context fires at every k with Canceled and DeadlineExceeded: no value, errors.Is(err, ctxErr), <=2 further polls; a never-firing context gives the context-free result; the instance afterwards answers the C08 probes like a new one.",
+      "For each input (one per poll-site context, every clause option of the model grammar, long token lists; thorough: every expression hole) and each of gosqlx.ParseWithContext, Tokenizer.TokenizeContext, Parser.ParseContext on a default and on a configured (strict, mysql) parser the number of polls P is measured, then the context fires at every k with Canceled and DeadlineExceeded: no value, errors.Is(err, ctxErr), <=2 further polls; a never-firing context gives the context-free result; the instance afterwards answers the C08 probes like a new one.",
       "Trusted: the library only polls Err() (checked); CountCtx keeps Done()/Deadline() consistent.",
       "DESIGN.md §2.6, §3 C11", engine="engine/common + checks/c08/probe")
 check("C12", "exploration",
@@ -79,7 +79,7 @@ check("C17", "exploration",
       "DESIGN.md §3 C17")
 check("C19", "fault_enumeration",
       "exhaustive enumeration of CLI scenarios (file sets x flags) with an in-process library oracle + fault enumeration: RLIMIT_FSIZE at every byte offset (short write and kill) and strace fault/kill injection at every system call of the in-place writers",
-      "The gosqlx binary built from the working tree runs in isolated scratch directories over all file-class sets (<=3 files), stdin and inline input, every flag and flag pair of format / validate / lint / parse: exit status iff the library accepts, check-only modes modify nothing, stdout vs -i vs --check consistent, JSON/SARIF well-formed and naming exactly the rejected inputs, what a multi-file run writes or prints for one file equals the single-file run (including after files the formatter cannot render); for format -i and lint --auto-fix every write-failure point leaves the original or the complete new file.",
+      "The gosqlx binary built from the working tree runs in isolated scratch directories over all file-class sets (<=3 files), stdin and inline input, every flag and flag pair of format / validate / lint / parse: exit status iff the library accepts, check-only modes modify nothing, stdout vs -i vs --check consistent (a run given --check together with -i is a check-only run), JSON/SARIF well-formed and naming exactly the rejected inputs, what a multi-file run writes or prints for one file equals the single-file run (including after files the formatter cannot render); for format -i and lint --auto-fix every write-failure point leaves the original or the complete new file.",
       "Trusted: RLIMIT_FSIZE / ptrace / strace injection semantics of this kernel.",
       "DESIGN.md §2.6, §3 C19", engine="engine/common + tools/fsize")
 
@@ -91,7 +91,7 @@ check("C01", "exploration",
       "DESIGN.md §2.1, §3 C01", engine="engine/common + lexgen + sqlgen")
 check("C13", "exploration",
       "bounded exhaustive enumeration of rejected inputs (token corruptions, lexical fragment strings, limit violations) through 10 failing-capable entry points; structural oracle on the returned error",
-      "Every rejected input must expose an *errors.Error through errors.As with a documented code of the family of the stage that rejected it (tokenizer E1xxx / parser E2xxx, dedicated limit codes), a non-empty message, a location inside the input when set, identical (code, message, location) on a second call, and the same answers when the rejected input is followed - on one Parser object and inside one recovery call - by a statement exactly at the nesting limit and by itself again.",
+      "Every rejected input must expose an *errors.Error through errors.As with a documented code of the family of the stage that rejected it (tokenizer E1xxx / parser E2xxx, dedicated limit codes), a non-empty message, a location inside the input when set, identical (code, message, location) on a second call, and the same answers when the rejected input is followed - on one Parser object and inside one recovery call - by a statement exactly at the nesting limit and by itself again, and with context-taking calls (context done at entry, deadline passed, cancelled mid-statement), a recovering parse or a position-less parse in between.",
       "Trusted: stage = whether tokenizer.Tokenize alone rejects the input.",
       "DESIGN.md §3 C13", engine="engine/common + lexgen + sqlgen")
 check("C16", "exploration",
